@@ -49,6 +49,7 @@ func runC01(r *Report, tier string) {
 	r.rule("R07.3", "no narrowing of the decoder: MaxNestedLevels, MaxArrayElements, MaxMapPairs of every decode mode are unset (library defaults), so everything the encoder emits within those defaults can be decoded again.")
 	r.rule("R04.2", "both algorithm gates succeed only when (a) alg equals, (b) alg absent and len(external) > 0, (c) sign side: alg inserted - the same predicate on both sides, so a message signed without alg is verifiable with the same external data.")
 	r.rule("R01.5", "builder purity: the functions that compute ToBeSigned (and their call trees) write no memory that existed before the call, so computing it again - on verify after sign, on a second verify, for a countersignature over the same parent - reads the same bytes.")
+	r.rule("R08.6", "(shared) a countersignature header value is refused by the decoders only after both its single-object and list form failed to decode.")
 	r.rule("R01.4", "builder determinism: the ToBeSigned terms contain no call outside the CBOR modes and in-package helpers, and read no package state other than the modes.")
 	r.assumes("the crypto primitives accept their own signatures; the CBOR library round-trips byte strings (A2/A4); a key built from a COSE_Key is the matching key (C14's structural part)")
 
@@ -139,6 +140,13 @@ func runC01(r *Report, tier string) {
 	}
 	// delegation of untagged / COSE_Sign is R02.1's; here: SignMessage elements use the Signature methods (R11.4)
 	checkNoWriteAfterBuilder(r, "R01.2")
+	// "after a wire round trip": what the encoders can emit under the
+	// countersignature labels is not refused by head byte, and the decoded
+	// value owns its bytes (C19's rules)
+	if cs := P.countersigValueDecoder(); cs != nil {
+		checkCountersigValueRefusal(r, "R08.6", cs)
+	}
+	runC19(r, tier)
 	// protected operand of the sign term == encoder protected slot: both are PROT($0.Headers)
 	for _, T := range P.structureTypes() {
 		name := T.Obj().Name()
